@@ -16,7 +16,7 @@ import json
 import os
 from concurrent.futures import ThreadPoolExecutor
 
-from harness import colang2, progs2, tlc, v2corpus
+from harness import watch, colang2, progs2, tlc, v2corpus
 
 SPEC_DIR = "/verif/specs/colang2"
 FRAGMENT_FEATURES = {"when", "if", "while", "groups", "return", "abort", "vars", "start", "actions", "refs", "activate", "priority", "loop", "params", "endflow", "globals", "label", "deactivate"}
@@ -46,6 +46,8 @@ DIRECTED = [
     "flow z\n  start A1Action(x=1)\n  start_new_flow_instance:\n  match E1()\n  abort\n\nflow main\n  activate z\n  match E3()\n  send Out2()\n  match Never()\n",
     # an activated flow that finished once is deactivated by its activator, which keeps running; time passes (old instances are discarded)
     "flow r\n  match E1()\n  send Out1()\n\nflow p\n  activate r\n  match E2()\n  deactivate r\n  match E3()\n  send Out2()\n\nflow main\n  activate p\n  match Never()\n",
+    # an activated flow whose first instance waits and whose restarted instance finishes at once (a global flag set in between)
+    "flow z\n  global $g\n  if $g == 1\n    $x = 1\n  else\n    match E1()\n    $g = 1\n    send Out1()\n\nflow main\n  global $g\n  $g = 0\n  activate z\n  match E3()\n  send Out2()\n  match Never()\n",
     # an action that lives in the scope of an or-group: stopped when the group is left, its Started may still arrive later
     "flow f\n  match E1()\n\nflow o\n  await f or A1Action(x=1)\n  match E2()\n  send Out1()\n\nflow main\n  start o\n  match E3()\n  match Never()\n",
     "flow o\n  when A1Action(x=1)\n    send Out1()\n  or when E1()\n    send Out2()\n  match E2()\n\nflow main\n  activate o\n  match E3()\n  match Never()\n",
@@ -175,6 +177,7 @@ def _replay_program(k):
         nelements = sum(len(c.elements) for c in base.flow_configs.values())
         base_created = list(created)
         first = v2corpus.step_record({"type": "StartFlow", "flow_id": "main"}, base)
+        hung = []      # histories (prefixes) whose last call did not come back: their extensions are not replayed
         def _replay(hist):
             """The history through the real run_to_completion: (state, step records, error, per-event outgoing events)."""
             s = copy.deepcopy(base)
@@ -182,7 +185,10 @@ def _replay_program(k):
             steps = [first]
             outs = []
             clock.offset = 0.0
-            for (ai, pick, act) in hist:
+            for hp in hung:
+                if [list(x) for x in hist[:len(hp)]] == hp:
+                    return s, steps, "not replayed: a prefix of this history did not come back", outs
+            for n_ev, (ai, pick, act) in enumerate(hist):
                 colang2._scripted.picks = [pick] * 16
                 if ai == 0:
                     clock.offset += 10.0        # more than 5 s pass: the next run_to_completion cleans up
@@ -200,10 +206,19 @@ def _replay_program(k):
                     counter["n"] = 0
                     live = sum(1 for f in s.flow_states.values() if f.status.name in ("WAITING", "STARTING", "STARTED"))
                 try:
-                    s = sm.run_to_completion(s, ev)
+                    with watch.limit(30):
+                        s = sm.run_to_completion(s, ev)
                     if counter is not None:
                         out["bounds"].append({"elements": nelements, "instances": live, "steps": counter["n"], "ev": ev.get("type"), "origin": "colangsm:%d" % i})
-                except Exception as ex:
+                except (KeyboardInterrupt, SystemExit):
+                    raise
+                except BaseException as ex:
+                    # (a step budget or the wall-clock watchdog ended the call: they are BaseExceptions so that the interpreter's own handlers cannot swallow them)
+                    if not isinstance(ex, Exception):
+                        hung.append([list(x) for x in hist[:n_ev + 1]])
+                    if counter is not None and not isinstance(ex, Exception):
+                        out["bounds"].append({"elements": nelements, "instances": live, "steps": max(counter["n"], 10 ** 6), "ev": ev.get("type"),
+                                              "origin": "colangsm:%d" % i, "nonterm": True})
                     return s, steps, "%s: %s" % (type(ex).__name__, ex), outs
                 steps.append(v2corpus.step_record(ev, s))
                 amap = {u: n + 1 for n, (u, _) in enumerate(created)}
